@@ -20,6 +20,9 @@ type routeCase struct {
 	cell  string
 	model wire.Dest
 	nobs  int
+	// unobservable: the model's destination when no driver socket is there (the socket
+	// oracle then treats the case like a drop; the egress monitor knows better)
+	unobservable *wire.Dest
 }
 
 func scenarioRoute() int {
@@ -57,6 +60,7 @@ func scenarioRoute() int {
 	var dialIns []*wire.TCPConn
 	hopDialIns := 0
 	relayed, dropped := 0, 0
+	egressChecked, egressDrops := 0, 0
 	for i := 0; i < n; i++ {
 		if h := w.Health(); h != "" {
 			run.Violation("proxy died during the run (belongs to C08; the run cannot continue)", map[string]any{"health": h})
@@ -90,6 +94,7 @@ func scenarioRoute() int {
 			// the model's destination is an address where the driver has no socket
 			// (e.g. the proxy's own address with a wrong port): nothing can be seen,
 			// and nothing must be seen anywhere else
+			c.unobservable = &wire.Dest{Proto: c.model.Proto, IP: c.model.IP, Port: c.model.Port}
 			c.model.Drop, c.model.Why = true, "destination "+c.model.String()+" is not observable"
 		}
 		if err := w.Send(c.path, c.msg.Bytes(), c.id); err != nil {
@@ -108,6 +113,16 @@ func scenarioRoute() int {
 		obs := w.Net.ForCase(c.id)
 		c.nobs = len(obs)
 		judgeRoute(run, w, prop, c, obs)
+		if prop == "C03" && w.EgressReady {
+			egressChecked++
+			judgeEgress(run, w, c)
+		}
+		if i%200 == 199 {
+			if d := w.Net.SnifferDrops(); d > 0 {
+				egressDrops += d
+			}
+			w.Net.TrimEgress()
+		}
 		if len(obs) > 0 {
 			relayed++
 		} else {
@@ -202,6 +217,10 @@ func scenarioRoute() int {
 			run.Violation("output arrived after the barrier of its case", map[string]any{"case": c.id, "cell": c.cell, "judged_with": c.nobs, "final": k})
 		}
 	}
+	run.Observe("egress_monitor_running", w.Net.Sniffing())
+	run.Observe("cases_whose_every_packet_on_the_loopback_device_was_checked", egressChecked)
+	run.Observe("packets_seen_by_the_egress_monitor", w.Net.SnifferPackets())
+	run.Observe("packets_dropped_by_the_egress_monitor", egressDrops)
 	run.Observe("connections_opened_by_next_hops_towards_the_proxy", hopDialIns)
 	run.Observe("cases_relayed", relayed)
 	run.Observe("cases_dropped", dropped)
@@ -212,6 +231,51 @@ func scenarioRoute() int {
 		run.Violation("observed-nothing", map[string]any{"relayed": relayed, "cases": n})
 	}
 	return run.Finish(int64(n) / 2)
+}
+
+// judgeEgress: every packet the proxy sent for this case, as the egress monitor saw it on
+// the loopback device - also towards addresses where no driver socket listens. A request the
+// model drops must not leave the proxy at all; a request with a destination must leave for
+// that destination only (packets to the proxy's own listeners are the request re-entering).
+func judgeEgress(run *ev.Run, w *wire.World, c *routeCase) {
+	sv := w.Svcs[c.model.Svc]
+	var stray []string
+	for _, e := range w.Net.EgressForCase(c.id) {
+		if !e.Req || !w.FromProxy(e) || w.ToProxy(e) {
+			continue
+		}
+		ok := false
+		switch {
+		case c.unobservable != nil:
+			// no driver socket there, but the monitor sees what leaves for it
+			ok = e.Proto == c.unobservable.Proto && e.Dst == fmt.Sprintf("%s:%d", c.unobservable.IP, c.unobservable.Port)
+		case c.model.Drop:
+		case c.model.Backend:
+			for _, b := range sv.BeUDP {
+				if e.Proto == "udp" && e.Dst == b.Addr {
+					ok = true
+				}
+			}
+			for _, l := range sv.BeTCP {
+				if e.Proto == "tcp" && e.Dst == l.Addr {
+					ok = true
+				}
+			}
+		default:
+			ok = e.Proto == c.model.Proto && e.Dst == fmt.Sprintf("%s:%d", c.model.IP, c.model.Port)
+		}
+		if !ok {
+			stray = append(stray, fmt.Sprintf("%s %s -> %s (%d bytes)", e.Proto, e.Src, e.Dst, e.Len))
+		}
+	}
+	if len(stray) > 0 {
+		why := "the proxy sent the request to a destination other than the one next hop the precedence rules choose (seen by the egress monitor on the loopback device)"
+		d := map[string]any{"why": why, "cell": c.cell, "ingress": c.path.Proto, "service": c.path.Svc, "model": c.model.String(), "model_rule": c.model.Rule, "stray_packets": stray}
+		if c.msg != nil {
+			d["request"] = string(c.msg.Bytes())
+		}
+		run.Violation(why, d)
+	}
 }
 
 func judgeRoute(run *ev.Run, w *wire.World, prop string, c *routeCase, obs []*wire.Obs) {
@@ -393,7 +457,7 @@ func genRouteCase(w *wire.World, g *sip.Gen, i int) *routeCase {
 			// a next hop whose URI looks like a name of the service (user and host match one of its
 			// patterns, the port is the listener's number): it is a Route entry, not a Request-URI
 			port := []int{0, 5060}[g.R.Intn(2)]
-			text := fmt.Sprintf("<sip:rx%d-%s@regex.verif.test", sidx, strings.TrimSuffix(onlyLower("-"+g.Alnum(2, 6)+"@")[1:], "@"))
+			text := fmt.Sprintf("<sip:rx%d-%s@regex.verif.test", sidx, strings.TrimSuffix(onlyLower("-" + g.Alnum(2, 6) + "@")[1:], "@"))
 			if port > 0 {
 				text += fmt.Sprintf(":%d", port)
 			}
